@@ -140,7 +140,13 @@ fn bits_hex(bv: &util::BitVec) -> String {
 fn output_to_json(bv: &util::BitVec, fs: &ProbeFs, want_spans: bool) -> J {
     let mut o = Map::new();
     o.insert("len".into(), json!(bv.len()));
-    o.insert("hex".into(), json!(bits_hex(bv)));
+    if bv.len() <= (16 << 20) {
+        o.insert("hex".into(), json!(bits_hex(bv)));
+    } else {
+        // huge outputs (far #addr) are never compared bit by bit: C19 owns them
+        o.insert("hex".into(), json!(""));
+        o.insert("hex_omitted".into(), json!(true));
+    }
     if want_spans {
         let spans: Vec<J> = bv
             .spans
